@@ -376,7 +376,7 @@ spif_ustr_append(spif_ustr_t self, spif_ustr_t other)
     if (other->size && other->len) {
         self->size += other->size - ((self->size) ? (1) : (0));
         self->s = (spif_charptr_t) REALLOC(self->s, self->size);
-        memcpy(self->s + self->len, SPIF_USTR_STR(other), other->len + 1);
+        memmove(self->s + self->len, SPIF_USTR_STR(other), other->len + 1);
         self->len += other->len;
     }
     return TRUE;
